@@ -1181,13 +1181,14 @@ func (g *gen) update() *Chain {
 	if g.pct("skiphooks", 15) {
 		c.SkipHooks = true
 	}
-	if sc.model && g.pct("modelid", 22) {
+	refused := g.pct("refused", 6)
+	if !refused && sc.model && g.pct("modelid", 22) {
 		c.ModelID = 1 + int64(g.pick("mid", 3))
 		if g.pct("bigid", 40) {
 			c.ModelID = g.num()
 		}
 	}
-	if c.ModelID == 0 && sc.model && g.pct("modelslice", 8) {
+	if !refused && c.ModelID == 0 && sc.model && g.pct("modelslice", 8) {
 		for i, n := 0, 1+g.pick("nmodelids", 3); i < n; i++ {
 			c.ModelIDs = append(c.ModelIDs, g.num())
 		}
@@ -1196,14 +1197,23 @@ func (g *gen) update() *Chain {
 		c.Unscoped = true
 	}
 	lo := 1
-	if g.pct("allowglobal", 8) {
+	if !refused && g.pct("allowglobal", 8) {
 		c.AllowGlobal = true // a write without any condition is then permitted
 		lo = 0
 	}
 	if c.ModelID != 0 || len(c.ModelIDs) > 0 {
 		lo = 0
 	}
-	c.Conds = g.conds(sc, lo+g.weighted("nconds", 50, 35, 15), false)
+	if refused {
+		// no condition at all (or only one that vanishes) and no AllowGlobalUpdate: must be refused
+		c.Refused = true
+		c.EmptyCond = g.oneOf("emptycond", "", "", "struct", "map")
+		if !sc.model && c.EmptyCond == "struct" {
+			c.EmptyCond = "map"
+		}
+	} else {
+		c.Conds = g.conds(sc, lo+g.weighted("nconds", 50, 35, 15), false)
+	}
 	kinds := []string{"update", "updates-map", "updates-struct", "updatecolumn", "updatecolumns-map", "updatecolumns-struct"}
 	kw := []int{25, 28, 17, 10, 12, 8}
 	if !sc.model {
@@ -1219,7 +1229,7 @@ func (g *gen) update() *Chain {
 		r := g.rec(sc.table, 35, true)
 		c.SetRec = &r
 		c.SetPtr = g.pct("setptr", 30)
-		if c.UpKind == "updates-struct" && c.ModelID == 0 && len(c.ModelIDs) == 0 && g.pct("updateself", 25) {
+		if !refused && c.UpKind == "updates-struct" && c.ModelID == 0 && len(c.ModelIDs) == 0 && g.pct("updateself", 25) {
 			// db.Where(…).Updates(&X{ID: n, …}): the key of the value itself is the target
 			c.UpKind, c.SetPtr = "updates-self", false
 			c.SetRec.ID = g.num()
@@ -1248,6 +1258,13 @@ func (g *gen) delete() *Chain {
 	}
 	if c.Base == "item" && g.pct("unscoped", 18) {
 		c.Unscoped = true
+	}
+	if g.pct("refused", 6) {
+		// no condition at all (or only one that vanishes) and no AllowGlobalUpdate: must be refused
+		c.Refused = true
+		c.EmptyCond = g.oneOf("emptycond", "", "", "struct", "map")
+		c.Returning = g.pct("returning", 10)
+		return c
 	}
 	lo := 1
 	if g.pct("allowglobal", 8) {
@@ -1548,6 +1565,9 @@ func GenPrefix(t *rapid.T, cfg Config, c *Chain) *Cond {
 	case "query", "update", "delete":
 	default:
 		return nil
+	}
+	if c.Refused {
+		return nil // a handle carrying a condition would make the operation legitimate
 	}
 	g := &gen{t: t, cfg: cfg, n: 400} // sentinels disjoint from the chain's
 	table, _ := tableOf(c.Base)
